@@ -536,6 +536,20 @@ class Sign(Engine):
         ctx.carry()
         ctx.check(got is want, 'C13.verify-iff', 'verify of a %d-byte DER signature (r of %d bits, s of %d bits, %s) under the recovered key returned %r, reference ECDSA verification says %r'
                   % (len(sig), vr.bit_length(), vs.bit_length(), 'unaltered' if tw == 'none' else 'altered: ' + tw, got, want), siglen=len(sig), want=want, twist=tw)
+        if a['recid'] == 1 and tw in ('none', 'digest'):
+            # the same verification from deep inside the caller's own recursion: it may run out of stack, it may not
+            # answer differently
+            for h in range(1, 9):
+                try:
+                    got2 = seams.at_stack_headroom(h, lambda: pub.verify(vz.to_bytes(32, 'big'), sig))
+                except RecursionError:
+                    ctx.probe('stack-exhausted-in-verify')
+                    continue
+                except Exception as e:        # noqa: BLE001
+                    got2 = 'raised %s' % type(e).__name__
+                ctx.check(got2 is want, 'C13.verify-iff', 'verify called with %d stack frames left returned %r, reference ECDSA verification says %r' % (h, got2, want),
+                          fault='stack-headroom', want=want)
+            ctx.fault('caller-stack-nearly-exhausted', 8)
         ctx.fault('recovered-key-signature.len%d' % (len(sig) // 8 * 8))
         ctx.log(0, 0, 'recovered', '', '%d/%s/%r' % (len(sig), tw, want))
 
@@ -659,7 +673,35 @@ class Sign(Engine):
     # message lengths where a hexadecimal constant gains a digit (a bound typed with one f too few): 16^k - 1 and 16^k
     HEX_MSG_SIZES = [16 ** k + d for k in (3, 4, 5, 6, 7) for d in (-1, 0)]
 
+    def _op_volume(self, a):
+        """A long-lived process: tens of thousands of DISTINCT hashes pass through the library between two uses of
+        the same keys (more than 2^16: where a ring of recent results, a 16-bit counter or an eviction policy wraps)."""
+        C, ctx = self.C, self.ctx
+        for j in range(a['n']):
+            d = C.Hash160(b'volume-%d' % j)
+            if j % 8191 == 0:
+                ctx.check(d == hash160(b'volume-%d' % j), 'C05.accept', 'Hash160 of a %d-byte string is not RIPEMD160(SHA256(.)) (call %d of a long series)' % (len(b'volume-%d' % j), j))
+        ctx.fault('volume-of-distinct-hashes-between-uses', a['n'])
+        ctx.log(0, 0, 'volume', a['n'], 'ok')
+
     def systematic(self, prop, tier):
+        if prop == 'C05' and not os.environ.get('VERIF_PYMODE'):
+            # the same spends before and after 2^16 + 500 other hashes have gone through the process (main pass only)
+            import random
+            plans = []
+            for seed in (77, 78, 79, 80, 81, 82):
+                p = self.gen_plan(random.Random(seed), prop, tier, -1)
+                keys = [s_ for s_ in p['steps'] if s_['op'] == 'key']
+                spends = [s_ for s_ in p['steps'] if s_['op'] == 'spend' and not s_['args'].get('big')][:2]
+                if not spends:
+                    continue
+                vol = {'t': 0.0, 'prio': 0, 'party': 0, 'op': 'volume', 'args': {'op': 'volume', 'n': (1 << 16) + 500}}
+                p['steps'] = keys + spends + [vol] + copy.deepcopy(spends)
+                p['config']['systematic'] = 'volume-between-uses'
+                plans.append(p)
+                if len(plans) == 2:
+                    break
+            return plans
         if prop != 'C14':
             return []
         plans = []
@@ -806,6 +848,19 @@ class Sign(Engine):
         except Exception as e:
             ok = 'raised %s' % type(e).__name__
         ctx.check(ok is True, 'C14.verify-self', 'VerifyMessage for the signer address returned %r' % (ok,), **det)
+        if a['perturb'] % 4 == 1:
+            # the same call from deep inside the caller's own recursion: with 1..12 frames left it may run out of
+            # stack (RecursionError reaches the caller) - it may not turn into "does not verify"
+            for h in range(1, 13):
+                try:
+                    ok2 = seams.at_stack_headroom(h, lambda: SM.VerifyMessage(addr, msg, sig64))
+                except RecursionError:
+                    ctx.probe('stack-exhausted-in-verify')
+                    continue
+                except Exception as e:        # noqa: BLE001
+                    ok2 = 'raised %s' % type(e).__name__
+                ctx.check(ok2 is True, 'C14.verify-self', 'VerifyMessage for the signer address, called with %d stack frames left, returned %r' % (h, ok2), fault='stack-headroom', **det)
+            ctx.fault('caller-stack-nearly-exhausted', 12)
         # other addresses
         others = []
         for o in self.keys:
